@@ -107,24 +107,36 @@ fn c02_csvdump_file_names_and_slices() {
 #[test]
 fn zzchild_whole_run() {
     use crate::callbacks::csvdump::CsvDump;
+    use crate::callbacks::simplestats::SimpleStats;
     let spec = match std::env::var("VERIF_CHILD") { Ok(s) => s, Err(_) => return };
     let p: Vec<&str> = spec.split('\n').collect();
     let (dir, out, start, verify) = (p[0], p[1], p[2].parse::<u64>().unwrap(), p[3] == "verify");
-    let m = CsvDump::build_subcommand().get_matches_from(vec!["csvdump", out]);
-    let cb = match CsvDump::new(&m) { Ok(c) => c, Err(_) => std::process::exit(4) };
-    match drive_with(std::path::Path::new(dir), "bitcoin", start, None, verify, Box::new(cb)) {
+    let kind = p.get(4).copied().unwrap_or("csvdump");
+    let cb: Box<dyn Callback> = if kind == "simplestats" {
+        // the report reaches the user through the program's own logger, as in main()
+        if crate::common::logger::SimpleLogger::init(log::LevelFilter::Info).is_err() { std::process::exit(5); }
+        match SimpleStats::new(&SimpleStats::build_subcommand().get_matches_from(vec!["simplestats"])) { Ok(c) => Box::new(c), Err(_) => std::process::exit(4) }
+    } else {
+        match CsvDump::new(&CsvDump::build_subcommand().get_matches_from(vec!["csvdump", out])) { Ok(c) => Box::new(c), Err(_) => std::process::exit(4) }
+    };
+    match drive_with(std::path::Path::new(dir), "bitcoin", start, None, verify, cb) {
         Ok(()) => std::process::exit(0),
         Err(_) => std::process::exit(3),     // what main() does with an Err from start(): non-zero exit
     }
 }
-fn whole_run_in_child(dir: &std::path::Path, out: &std::path::Path, start: u64, verify: bool) -> (Option<i32>, Vec<String>) {
-    let spec = format!("{}\n{}\n{}\n{}", dir.display(), out.display(), start, if verify { "verify" } else { "plain" });
-    let st = std::process::Command::new(std::env::current_exe().unwrap())
+/// one real run in a child process: (exit code, file names in `out`, the child's stdout)
+pub(crate) fn whole_run_in_child_ex(dir: &std::path::Path, out: &std::path::Path, start: u64, verify: bool, kind: &str) -> (Option<i32>, Vec<String>, String) {
+    let spec = format!("{}\n{}\n{}\n{}\n{}", dir.display(), out.display(), start, if verify { "verify" } else { "plain" }, kind);
+    let o = std::process::Command::new(std::env::current_exe().unwrap())
         .args(["zzchild_whole_run", "--nocapture", "--test-threads", "1"])
-        .env("VERIF_CHILD", spec).stdout(std::process::Stdio::null()).stderr(std::process::Stdio::null()).status().unwrap();
+        .env("VERIF_CHILD", spec).stderr(std::process::Stdio::null()).output().unwrap();
     let mut names: Vec<String> = std::fs::read_dir(out).unwrap().map(|e| e.unwrap().file_name().to_string_lossy().to_string()).collect();
     names.sort();
-    (st.code(), names)
+    (o.status.code(), names, String::from_utf8_lossy(&o.stdout).into_owned())
+}
+fn whole_run_in_child(dir: &std::path::Path, out: &std::path::Path, start: u64, verify: bool) -> (Option<i32>, Vec<String>) {
+    let (c, n, _) = whole_run_in_child_ex(dir, out, start, verify, "csvdump");
+    (c, n)
 }
 fn is_final_name(n: &str) -> bool {
     ["blocks-", "transactions-", "tx_in-", "tx_out-"].iter().any(|p| n.starts_with(p)) && n.ends_with(".csv")
